@@ -26,3 +26,112 @@ package guardiand
 //@     invariant [rest-untouched] unchangedSinceEntry("chan") && mapUnchangedSinceEntry(chainObsvReqC)
 //@     iter-ensures [purge-iff-expired] indom(cache, r) <==> !(tns(now) - tns(t) > 660000000000)
 //@     iter-ensures [others-kept] mapUnchangedExcept(cache, r)
+
+// ---------------------------------------------------------------- governance request -> VAA (C15)
+
+// envelope: the VAA comes from the configured governance emitter and carries the request's
+// header values unchanged.
+//@ pred envelope(v *vaa.VAA, gc vaa.ChainID, ga vaa.Address, ts time.Time, gsi uint32, nonce uint32, seq uint64, tc vaa.ChainID) = v != nil && v.Version == 1 && v.EmitterChain == gc && v.EmitterAddress == ga && v.Timestamp == ts && v.GuardianSetIndex == gsi && v.Nonce == nonce && v.Sequence == seq && v.TargetChain == tc && v.ConsistencyLevel == 32 && len(v.Signatures) == 0
+
+//@ func adminUpdateMessageFeeToVAA(gc vaa.ChainID, ga vaa.Address, req *nodev1.UpdateMessageFee, ts time.Time, gsi uint32, nonce uint32, seq uint64, tc vaa.ChainID) (v *vaa.VAA, err error)
+//@   props C15
+//@   requires req != nil
+//@   ensures [rejects] err != nil ==> v == nil
+//@   ensures [accept-iff-valid] err == nil <==> len(req.NewMessageFee) == 64 && hexok(req.NewMessageFee)
+//@   ensures [envelope] err == nil ==> envelope(v, gc, ga, ts, gsi, nonce, seq, tc)
+//@   ensures [payload] err == nil ==> ral_is_core_module(v.Payload) && v.Payload[32] == ral_core_action_NewMessageFee && len(v.Payload) == ral_setMessageFee_size_base && (forall j in 0..32 :: v.Payload[ral_setMessageFee_fee_off + j] == unhex(req.NewMessageFee)[j])
+//@   modifies fresh vaa.VAA.*, fresh lib:bytes.Buffer.b
+//@   nopanic
+//@   replay guardiand_governance.go.tmpl
+
+//@ func adminTransferFeeToVAA(gc vaa.ChainID, ga vaa.Address, req *nodev1.TransferFee, ts time.Time, gsi uint32, nonce uint32, seq uint64, tc vaa.ChainID) (v *vaa.VAA, err error)
+//@   props C15
+//@   requires req != nil
+//@   ensures [rejects] err != nil ==> v == nil
+//@   ensures [accept-iff-valid] err == nil <==> len(req.Amount) == 64 && len(req.Recipient) == 64 && hexok(req.Amount) && hexok(req.Recipient)
+//@   ensures [envelope] err == nil ==> envelope(v, gc, ga, ts, gsi, nonce, seq, tc)
+//@   ensures [payload] err == nil ==> ral_is_core_module(v.Payload) && v.Payload[32] == ral_core_action_TransferFee && len(v.Payload) == ral_transferFees_size_base && (forall j in 0..32 :: v.Payload[ral_transferFees_amount_off + j] == unhex(req.Amount)[j]) && (forall j in 0..32 :: v.Payload[ral_transferFees_recipient_off + j] == unhex(req.Recipient)[j])
+//@   modifies fresh vaa.VAA.*, fresh lib:bytes.Buffer.b
+//@   nopanic
+//@   replay guardiand_governance.go.tmpl
+
+//@ func adminContractUpgradeToVAA(gc vaa.ChainID, ga vaa.Address, req *nodev1.ContractUpgrade, ts time.Time, gsi uint32, nonce uint32, seq uint64, tc vaa.ChainID) (v *vaa.VAA, err error)
+//@   props C15
+//@   requires req != nil
+//@   ensures [rejects] err != nil ==> v == nil
+//@   ensures [accept-iff-valid] err == nil <==> hexok(req.Payload)
+//@   ensures [envelope] err == nil ==> envelope(v, gc, ga, ts, gsi, nonce, seq, tc)
+//@   ensures [payload] err == nil ==> ral_is_core_module(v.Payload) && v.Payload[32] == ral_core_action_ContractUpgrade && len(v.Payload) == 33 + len(unhex(req.Payload)) && (forall j in 0..len(unhex(req.Payload)) :: v.Payload[33 + j] == unhex(req.Payload)[j])
+//@   modifies fresh vaa.VAA.*, fresh lib:bytes.Buffer.b
+//@   nopanic
+//@   replay guardiand_governance.go.tmpl
+
+//@ func tokenBridgeRegisterChain(gc vaa.ChainID, ga vaa.Address, req *nodev1.BridgeRegisterChain, ts time.Time, gsi uint32, nonce uint32, seq uint64, tc vaa.ChainID) (v *vaa.VAA, err error)
+//@   props C15
+//@   requires req != nil
+//@   ensures [rejects] err != nil ==> v == nil
+//@   ensures [envelope] err == nil ==> envelope(v, gc, ga, ts, gsi, nonce, seq, tc)
+//@   ensures [lossless-chain] err == nil ==> be16at(v.Payload, ral_registerChain_remoteChainId_off) == req.ChainId
+//@   ensures [payload] err == nil ==> v.Payload[32] == ral_tb_action_RegisterChain && len(v.Payload) == ral_registerChain_size_base && len(unhex(req.EmitterAddress)) == 32 && (forall j in 0..32 :: v.Payload[ral_registerChain_remoteTokenBridgeId_off + j] == unhex(req.EmitterAddress)[j])
+//@   ensures [module] err == nil ==> len(req.Module) <= 32 && (forall j in 0..len(req.Module) :: v.Payload[32 - len(req.Module) + j] == str2bytes(req.Module)[j])
+//@   modifies fresh vaa.VAA.*, fresh lib:bytes.Buffer.b
+//@   nopanic
+//@   replay guardiand_governance.go.tmpl
+
+//@ func tokenBridgeUpgradeContract(gc vaa.ChainID, ga vaa.Address, req *nodev1.BridgeUpgradeContract, ts time.Time, gsi uint32, nonce uint32, seq uint64, tc vaa.ChainID) (v *vaa.VAA, err error)
+//@   props C15
+//@   requires req != nil
+//@   ensures [rejects] err != nil ==> v == nil
+//@   ensures [envelope] err == nil ==> envelope(v, gc, ga, ts, gsi, nonce, seq, tc)
+//@   ensures [payload] err == nil ==> v.Payload[32] == ral_tb_action_ContractUpgrade && len(v.Payload) == 33 + len(unhex(req.Payload)) && (forall j in 0..len(unhex(req.Payload)) :: v.Payload[33 + j] == unhex(req.Payload)[j])
+//@   ensures [module] err == nil ==> len(req.Module) <= 32 && (forall j in 0..len(req.Module) :: v.Payload[32 - len(req.Module) + j] == str2bytes(req.Module)[j])
+//@   modifies fresh vaa.VAA.*, fresh lib:bytes.Buffer.b
+//@   nopanic
+//@   replay guardiand_governance.go.tmpl
+
+//@ func tokenBridgeDestroyUnexecutedSequenceContracts(gc vaa.ChainID, ga vaa.Address, req *nodev1.TokenBridgeDestroyUnexecutedSequenceContracts, ts time.Time, gsi uint32, nonce uint32, seq uint64, tc vaa.ChainID) (v *vaa.VAA, err error)
+//@   props C15
+//@   requires req != nil
+//@   ensures [rejects] err != nil ==> v == nil
+//@   ensures [envelope] err == nil ==> envelope(v, gc, ga, ts, gsi, nonce, seq, tc)
+//@   ensures [lossless-chain] err == nil ==> be16at(v.Payload, ral_destroySequences_remoteChainIdBytes_off) == req.EmitterChain
+//@   ensures [lossless-count] err == nil ==> be16at(v.Payload, ral_destroySequences_length_off) == len(req.Sequences)
+//@   ensures [payload] err == nil ==> ral_is_tb_module(v.Payload) && v.Payload[32] == ral_tb_action_DestroyUnexecutedSequences && len(v.Payload) == ral_destroySequences_size_base + ral_destroySequences_size_per * len(req.Sequences) && (forall k in 0..len(req.Sequences) :: be64at(v.Payload, 37 + 8*k) == req.Sequences[k])
+//@   modifies fresh vaa.VAA.*, fresh lib:bytes.Buffer.b
+//@   nopanic
+//@   replay guardiand_governance.go.tmpl
+
+//@ func tokenBridgeUpdateMinimalConsistencyLevel(gc vaa.ChainID, ga vaa.Address, req *nodev1.TokenBridgeUpdateMinimalConsistencyLevel, ts time.Time, gsi uint32, nonce uint32, seq uint64, tc vaa.ChainID) (v *vaa.VAA, err error)
+//@   props C15
+//@   requires req != nil
+//@   ensures [rejects] err != nil ==> v == nil
+//@   ensures [envelope] err == nil ==> envelope(v, gc, ga, ts, gsi, nonce, seq, tc)
+//@   ensures [lossless-level] err == nil ==> v.Payload[ral_minConsistency_consistencyLevel_off] == req.NewConsistencyLevel
+//@   ensures [payload] err == nil ==> ral_is_tb_module(v.Payload) && v.Payload[32] == ral_tb_action_UpdateMinimalConsistencyLevel && len(v.Payload) == ral_minConsistency_size_base
+//@   modifies fresh vaa.VAA.*, fresh lib:bytes.Buffer.b
+//@   nopanic
+//@   replay guardiand_governance.go.tmpl
+
+//@ func tokenBridgeUpdateRefundAddress(gc vaa.ChainID, ga vaa.Address, req *nodev1.TokenBridgeUpdateRefundAddress, ts time.Time, gsi uint32, nonce uint32, seq uint64, tc vaa.ChainID) (v *vaa.VAA, err error)
+//@   props C15
+//@   requires req != nil
+//@   ensures [rejects] err != nil ==> v == nil
+//@   ensures [envelope] err == nil ==> envelope(v, gc, ga, ts, gsi, nonce, seq, tc)
+//@   ensures [lossless-length] err == nil ==> be16at(v.Payload, ral_refundAddress_addressSize_off) == len(unhex(req.NewRefundAddress))
+//@   ensures [payload] err == nil ==> ral_is_tb_module(v.Payload) && v.Payload[32] == ral_tb_action_UpdateRefundAddress && len(v.Payload) == ral_refundAddress_size_base + ral_refundAddress_size_per * len(unhex(req.NewRefundAddress)) && (forall j in 0..len(unhex(req.NewRefundAddress)) :: v.Payload[35 + j] == unhex(req.NewRefundAddress)[j])
+//@   modifies fresh vaa.VAA.*, fresh lib:bytes.Buffer.b
+//@   nopanic
+//@   replay guardiand_governance.go.tmpl
+
+//@ func adminGuardianSetUpgradeToVAA(gc vaa.ChainID, ga vaa.Address, req *nodev1.GuardianSetUpgrade, ts time.Time, gsi uint32, nonce uint32, seq uint64, tc vaa.ChainID) (v *vaa.VAA, err error)
+//@   props C15
+//@   requires req != nil && (forall i in 0..len(req.Guardians) :: req.Guardians[i] != nil)
+//@   ensures [rejects] err != nil ==> v == nil
+//@   ensures [envelope] err == nil ==> envelope(v, gc, ga, ts, gsi, nonce, seq, tc)
+//@   ensures [lossless-index] err == nil ==> be32at(v.Payload, ral_newGuardianSet_newGuardianSetIndex_off) == gsi + 1
+//@   ensures [payload] err == nil ==> ral_is_core_module(v.Payload) && v.Payload[32] == ral_core_action_NewGuardianSet && len(req.Guardians) >= 1 && v.Payload[ral_newGuardianSet_newGuardianSetSize_off] == len(req.Guardians) && len(v.Payload) == ral_newGuardianSet_size_base + ral_newGuardianSet_size_per * len(req.Guardians)
+//@   modifies fresh vaa.VAA.*, fresh lib:bytes.Buffer.b
+//@   nopanic
+//@   replay guardiand_governance.go.tmpl
+//@   loop [range req.Guardians]:
+//@     invariant [len] len(addrs) == len(req.Guardians)
